@@ -511,6 +511,18 @@ class RawAlgorithmsMixIn:
 
 
 
+        if isinstance(r, numpy.ndarray) and r.dtype.kind in 'iub' and r.size > 0 and numpy.all(r >= 0):
+            # an array of non-negative integer exponents: products as for a
+            # python int (no division by the zeroth coefficient)
+            r = r.astype(int)
+            y_data[...] = 0.
+            y_data[0, ...] = 1.
+            for nr in range(1, int(r.max()) + 1):
+                tmp = y_data.copy()
+                cls._mul(x_data, tmp, tmp)
+                y_data[...] = numpy.where(r >= nr, tmp, y_data)
+            return y_data
+
         y_data[0] = x_data[0]**r
         for d in range(1,D):
             y_data[d] = r * numpy.sum([y_data[d-k] * k * x_data[k] for k in range(1,d+1)], axis = 0) - \
@@ -555,6 +567,15 @@ class RawAlgorithmsMixIn:
                 tmp *= r
                 cls._mul(ybar_data, tmp, tmp)
                 xbar_data += tmp
+
+        elif isinstance(r, numpy.ndarray) and r.dtype.kind in 'iub' and r.size > 0 and numpy.all(r >= 0):
+            # an array of non-negative integer exponents, as for a python int
+            r = r.astype(int)
+            tmp = numpy.zeros(x_data.shape, dtype=xbar_data.dtype)
+            cls._pow_real(x_data, numpy.maximum(r - 1, 0), out = tmp)
+            tmp *= r
+            cls._mul(ybar_data, tmp, tmp)
+            xbar_data += tmp
 
         else:
 
